@@ -45,7 +45,7 @@ pub fn duration_parse(config: &SmartCalcConfig, tokinizer: &Tokinizer, fields: &
                 let years = duration / 12;
                 let month = duration % 12;
 
-                Duration::try_days((365 * years) + (30 * month))
+                years.checked_mul(365).and_then(|days| days.checked_add(30 * month)).and_then(Duration::try_days)
             },
             ConstantType::Day => {
                 let years = duration / 365;
